@@ -150,7 +150,10 @@ def c08_4(ctx):
                 if isinstance(t.ops[0], ast.Eq):
                     return BAD_FALSE
             return None
-        out.append(rl.guard(ctx, spec, match, what="decoded length must be 78", key="len78"))
+        g = rl.guard(ctx, spec, match, what="decoded length must be 78", key="len78")
+        kind = "pub" if "Public" in spec else "prv"
+        out.extend(rl.defer(ctx, [g], lambda: [r for r in c08_19(ctx) if r.key == "xkey-string:" + kind or r.status == "error"],
+                            "payloads of 77, 79, 74, 4 and 156 bytes are refused and every 78-byte key is accepted: decided by the string-entry cells (C08.19); the length test is not in the place this rule looks"))
     return out
 
 
@@ -603,6 +606,12 @@ def c08_18(ctx):
 
 
 def c08_19(ctx):
+    if not hasattr(ctx, "_c08_19"):
+        ctx._c08_19 = _c08_19(ctx)
+    return ctx._c08_19
+
+
+def _c08_19(ctx):
     """the string entry points: HDPrivateKey.parse / HDPublicKey.parse evaluated on the Base58Check string of a 78-byte key for every one of
     the SLIP-132 versions (xprv … Vprv, xpub … Vpub): whatever the entry point does before handing the bytes to raw_parse (decoding, length
     test, any pre-check on the text) must let every prefix the library itself writes through, with the version kept"""
@@ -668,9 +677,24 @@ def c08_19(ctx):
                     break
             if bad:
                 break
+        if bad is None:
+            # a Base58Check string whose payload is not 78 bytes (one byte short, one byte long, a 74-byte half key, the bare version) is refused
+            ver = bytes.fromhex(sorted(SLIP132["mainnet_%s" % kind])[0])
+            body = ver + b"\x00" + b"\xab\xcd\x01\x02" + bytes(4) + chain + ((b"\x02" + b"\x11" * 32) if kind == "pub" else (b"\x00" + b"\x22" * 32))
+            for wrong in (body[:-1], body + b"\x00", body[:74], ver, body + body):
+                n += 1
+                try:
+                    Evaluator(ctx.repo, method_hooks=hooks, max_steps=600000).call(spec, [b58check(wrong)], self_obj=ClassRef("hd", clsname))
+                    bad = ("bad", "a Base58Check string carrying %d bytes is accepted by %s.parse: an extended key is exactly 78 bytes" % (len(wrong), clsname))
+                    break
+                except Raised:
+                    pass
+                except Undecided as u:
+                    bad = ("err", "string entry point not evaluable on a %d-byte payload: %s" % (len(wrong), u))
+                    break
         ctx.count("cells", n)
         if bad is None:
-            out.append(ctx.ok(spec, "all %d strings (every SLIP-132 %s prefix × 2 depths) are accepted with their version kept" % (n, kind), fn, mod, key="xkey-string:" + kind))
+            out.append(ctx.ok(spec, "all %d strings (every SLIP-132 %s prefix × 2 depths) are accepted with their version kept; payloads of 77, 79, 74, 4 and 156 bytes are refused" % (n, kind), fn, mod, key="xkey-string:" + kind))
         elif bad[0] == "err":
             out.append(ctx.err(spec, bad[1], fn, mod))
         else:
